@@ -175,6 +175,8 @@ func tplText(t []TplPart) string {
 			sb.WriteString("{{ unixEpochNanos __timestamp__ }}")
 		case "fail":
 			sb.WriteString(`{{ unixToTime "x" }}`)
+		case "epoch":
+			sb.WriteString("{{ unixToTime ." + p.Text + " | unixEpochNanos }}")
 		}
 	}
 	return sb.String()
@@ -184,7 +186,7 @@ func tplSexp(t []TplPart) Sexp {
 	out := make([]Sexp, len(t))
 	for i, p := range t {
 		switch p.Kind {
-		case "lit", "field":
+		case "lit", "field", "epoch":
 			out[i] = L(A(p.Kind), B(p.Text))
 		default:
 			out[i] = L(A(p.Kind))
